@@ -60,7 +60,8 @@ class RunInfo:
         storage: str | dict[OUTPUT_TYPE, str],
         cleanup: bool = True,
     ) -> RunInfo:
-        _requires_serialization(storage)  # raises for unknown storage names, before the folder is touched
+        for name in [storage] if isinstance(storage, str) else storage.values():
+            get_storage_class(name)  # raises for unknown storage names, before the folder is touched
         run_folder = _maybe_run_folder(run_folder, storage)
         if run_folder is not None:
             if cleanup:
